@@ -143,7 +143,7 @@ CHECKS = {
     ),
     "C19": dict(
         cat="fault_enumeration",
-        text="For every listed configuration (mode, batch size 1-4, 2-7 plates, chains/chunks, publication-order seed) the real script is run crash-free against a pipeline stub and then once per failpoint hit with a kill at that hit: every executed line of the script (sys.monitoring), before/after each mkdir inside makedirs, between the unlinks of rmtree, after each directory and file the stub publishes in an order consistent with the .nf process DAG. After each kill the script is rerun (deleting exactly the directory it names) until the simulation is complete and the launch log, deletion log and final tree are checked off-line against the crash-free run; continuations from an identical directory tree are explored once; pairs of kills are sampled (dense for small configurations). Every second configuration starts the script from the project directory with relative --screen / --outdir; in prospective mode a simulated operator brings the lab results of every completed batch before the next invocation (the input screen changes), so a step started before they arrive is distinguishable.",
+        text="For every listed configuration (mode, batch size 1-4, 2-7 plates, chains/chunks, publication-order seed) the real script is run crash-free against a pipeline stub and then once per failpoint hit with a kill at that hit: every executed line of the script (sys.monitoring), before/after each mkdir inside makedirs, between the unlinks of rmtree, inside every pipeline task (the stub gives each task a directory below <job>/work/xx/<hash>/ with staged inputs, writes the output there and only then publishes it) and after each directory and file the stub publishes, in an order consistent with the .nf process DAG. Half of the configurations name the output directory with characters that mean something to a file-name pattern (run[1], out[a-z], res*lts, screens[v2]/out), and the crash-free run itself is judged (bounded number of launches, steps in order, no completed step launched again or deleted). After each kill the script is rerun (deleting exactly the directory it names) until the simulation is complete and the launch log, deletion log and final tree are checked off-line against the crash-free run; continuations from an identical directory tree are explored once; pairs of kills are sampled (dense for small configurations). Every second configuration starts the script from the project directory with relative --screen / --outdir; in prospective mode a simulated operator brings the lab results of every completed batch before the next invocation (the input screen changes), so a step started before they arrive is distinguishable.",
         ref="4/C19",
         note="The real nextflow is not installed: publication behaviour is the stub's stated assumption (DAG-consistent order, atomic per file). Kill = BaseException at the failpoint (the script has no handlers).",
         technique="fault injection at every failpoint + offline checker over the recorded launch/deletion log against the crash-free run",
